@@ -1442,8 +1442,10 @@ func ruleDiagnosticsOnlyGrow(c *Ctx) {
 
 // growsOnly: the slice value is the current value of field fv, or a fresh list, extended only by appends - no
 // re-slicing, no call that builds the list in another way.
+var growsOnlyCarriers = map[*types.Var]bool{}
+
 func growsOnly(v ssa.Value, fv *types.Var, stack []*ssa.Call, depth int, seen map[ssa.Value]bool) bool {
-	if v == nil || depth > 4 {
+	if v == nil || depth > 8 {
 		return false
 	}
 	if seen[v] {
@@ -1481,6 +1483,23 @@ func growsOnly(v ssa.Value, fv *types.Var, stack []*ssa.Call, depth int, seen ma
 				}
 			}
 		}
+		// no context: every call site of the function
+		if curProg != nil {
+			sites := (cgView{&Ctx{P: curProg}}).callersOf(x.Parent())
+			if len(sites) == 0 {
+				return false
+			}
+			for _, site := range sites {
+				for i, p := range x.Parent().Params {
+					if p == x && i < len(site.Common().Args) {
+						if !growsOnly(site.Common().Args[i], fv, nil, depth+1, seen) {
+							return false
+						}
+					}
+				}
+			}
+			return true
+		}
 		return false
 	case *ssa.UnOp:
 		if x.Op != token.MUL {
@@ -1488,7 +1507,36 @@ func growsOnly(v ssa.Value, fv *types.Var, stack []*ssa.Call, depth int, seen ma
 		}
 		switch a := x.X.(type) {
 		case *ssa.FieldAddr:
-			return fieldVarOfAddr(a) == fv
+			g := fieldVarOfAddr(a)
+			if g == fv || growsOnlyCarriers[g] {
+				return true
+			}
+			// another field that carries the list for a while (a report object's `diags`): every store into it, in
+			// any function, must itself only extend the list
+			if curProg == nil || !types.Identical(g.Type(), fv.Type()) {
+				return false
+			}
+			growsOnlyCarriers[g] = true
+			defer delete(growsOnlyCarriers, g)
+			n := 0
+			for _, h := range curProg.ModuleFuncs() {
+				for _, b := range h.Blocks {
+					for _, ins := range b.Instrs {
+						st, ok := ins.(*ssa.Store)
+						if !ok {
+							continue
+						}
+						if fa2, ok := st.Addr.(*ssa.FieldAddr); ok && fieldVarOfAddr(fa2) == g {
+							n++
+							// a store in another function starts a new context: its parameters are followed to its call sites
+							if !growsOnly(st.Val, fv, nil, depth+1, map[ssa.Value]bool{}) {
+								return false
+							}
+						}
+					}
+				}
+			}
+			return n > 0
 		case *ssa.Alloc:
 			n := 0
 			for _, r := range *a.Referrers() {
@@ -1688,6 +1736,31 @@ func ruleAllSitesOfPosting(c *Ctx) {
 					switch s := y.(type) {
 					case *ast.FuncLit:
 						return false
+					case *ast.IfStmt:
+						// the iterator protocol: `if ... && !yield(x) { return }` stops because the consumer asked to
+						stops := false
+						ast.Inspect(s.Cond, func(z ast.Node) bool {
+							if u, ok := z.(*ast.UnaryExpr); ok && u.Op == token.NOT {
+								if call, ok := ast.Unparen(u.X).(*ast.CallExpr); ok {
+									if id, ok := ast.Unparen(call.Fun).(*ast.Ident); ok {
+										if v, ok := info.Uses[id].(*types.Var); ok {
+											if sig, ok := v.Type().Underlying().(*types.Signature); ok && sig.Results().Len() == 1 && types.TypeString(sig.Results().At(0).Type(), nil) == "bool" {
+												stops = true
+											}
+										}
+									}
+								}
+							}
+							return true
+						})
+						if stops && len(s.Body.List) == 1 {
+							if _, isRet := s.Body.List[0].(*ast.ReturnStmt); isRet {
+								if s.Else != nil {
+									walk(s.Else, inInner)
+								}
+								return false
+							}
+						}
 					case *ast.ReturnStmt:
 						exit = s.Pos()
 					case *ast.BranchStmt:
